@@ -1,6 +1,7 @@
 import Hive.Base.Proto
 import Hive.Model.ReactiveInst
 import Hive.Model.ReactiveVariantsSeq
+import Hive.Model.ReactiveDir
 /-!
 # Sequential reading of the reactive model and the line protocol of `drv_c13`
 
@@ -30,6 +31,7 @@ structure St where
   hist : List Nat := []     -- stress: the variable's value history given by a `vhist` line
   ref : Option (List Mut) := none   -- stress: the notes of the set's reference subscription (`sref` line)
   vx : Option VX.St := none         -- a `newvarx` case: variable with subscribers of every variant
+  dir : Option Dir.St := none       -- a `newdir` case: the protocol model under a director (Hive/Model/ReactiveDir.lean)
 
 def init : St := {}
 
@@ -321,9 +323,16 @@ def stepLine0 (st : St) (toks : List String) : St × String :=
     | _, _ => (st, "bad-op")
 
 def stepLine (st : St) (toks : List String) : St × String :=
-  match toks, st.vx with
-  | ["newvarx"], _ => ({ vx := some {} }, "ok")
-  | _, some x => let r := VX.stepLine x toks; ({ st with vx := some r.1 }, r.2)
-  | _, none => stepLine0 st toks
+  match toks, st.vx, st.dir with
+  | ["newvarx"], _, _ => ({ vx := some {} }, "ok")
+  | "newdir" :: kind, _, _ =>
+    match Dir.St.new kind with
+    | some d => ({ dir := some d }, "ok")
+    | none => (st, "bad-op")
+  | _, some x, _ => let r := VX.stepLine x toks; ({ st with vx := some r.1 }, r.2)
+  | _, none, some d =>
+    if toks.head? == some "vsub" || toks.head? == some "ssub" then stepLine0 st toks   -- the logs, judged by the trace predicates too
+    else let r := d.stepLine toks; ({ st with dir := some r.1 }, r.2)
+  | _, none, none => stepLine0 st toks
 
 end Hive.Reactive.Seq
